@@ -8,6 +8,10 @@ import (
 	"time"
 )
 
+// maxLineSize bounds the length of one journal line. A chunk holding a
+// sketch in its dense form is a few hundred kilobytes long.
+const maxLineSize = 16 * 1024 * 1024
+
 func NewClusterCounter(from time.Time, to time.Time) *ClusterCounter {
 	return &ClusterCounter{from: from, to: to}
 }
@@ -29,6 +33,7 @@ func (c ClusterCounter) Count(reader io.Reader) (*ClusterCountResult, error) {
 		return nil, err
 	}
 	inputScanner := bufio.NewScanner(reader)
+	inputScanner.Buffer(nil, maxLineSize)
 	for inputScanner.Scan() {
 		inputLine := inputScanner.Bytes()
 		sinkInfo := SinkEntry{}
@@ -54,6 +59,9 @@ func (c ClusterCounter) Count(reader io.Reader) (*ClusterCountResult, error) {
 		if err != nil {
 			return nil, err
 		}
+	}
+	if err := inputScanner.Err(); err != nil {
+		return nil, err
 	}
 	result.Sum = counter.Count()
 	return &result, nil
